@@ -269,12 +269,49 @@ def chash(obj):
     return hashlib.sha256(json.dumps(obj, sort_keys=True).encode()).hexdigest()[:16]
 
 
+def load_corpus(pid):
+    """Minimised inputs of earlier failures (committed under corpus/<id>/); they run first on every check."""
+    d = f"{ROOT}/corpus/{pid}"
+    out = []
+    if os.path.isdir(d):
+        for f in sorted(os.listdir(d)):
+            if f.endswith('.json'):
+                out.append(json.load(open(f"{d}/{f}"))['input'])
+    return out
+
+
 # ----------------------------------------------------------------------------------------- known findings
 def load_known():
     p = f"{ROOT}/known_findings.json"
     if not os.path.exists(p):
         return []
     return json.load(open(p))['findings']
+
+
+def batch_shrink(P, case, out, budget_s=120, rounds=30):
+    """Greedy shrinking: P.shrink_candidates(case) yields smaller cases; all candidates of a round are run together
+    (implementation + spec_ok inside Coq); the first that still fails replaces the case."""
+    t0 = time.time()
+    cur, cur_out = case, out
+    for _ in range(rounds):
+        if time.time() - t0 > budget_s:
+            break
+        cands = list(P.shrink_candidates(cur))[:60]
+        if not cands:
+            break
+        outs = run_impl(P.IMPL, cands, hashseed=os.environ.get('VERIF_HASHSEED', '0'), **getattr(P, 'IMPL_KW', {}))
+        if any(isinstance(o, dict) and 'driver_error' in o for o in outs):
+            break
+        terms = [P.to_coq(c, o) for c, o in zip(cands, outs)]
+        ok, fails, _ = coq_eval_cases(P.ID + '-shrink', P.RUN_MODULE, getattr(P, 'COQ_HEADER', ''), terms,
+                                      shard_size=getattr(P, 'SHARD', 300), fns=('spec_ok',))
+        bad = fails.get('spec_ok', [])
+        if hasattr(P, 'known_class'):
+            bad = [i for i in bad if P.known_class(cands[i], outs[i]) is None]
+        if not ok or not bad:
+            break
+        cur, cur_out = cands[bad[0]], outs[bad[0]]
+    return cur, cur_out
 
 
 # ----------------------------------------------------------------------------------------- the check
@@ -325,7 +362,7 @@ def run_check(P, tier, seed, replay=None):
         cases = [rp['input']] if 'input' in rp else []
         corpus_n = 0
     else:
-        corpus = P.corpus() if hasattr(P, 'corpus') else []
+        corpus = P.corpus() if hasattr(P, 'corpus') else load_corpus(pid)
         cases = corpus + P.gen_cases(rng, tier)
         corpus_n = len(corpus)
     outs = run_impl(P.IMPL, cases, hashseed=os.environ.get('VERIF_HASHSEED', '0'), **getattr(P, 'IMPL_KW', {}))
@@ -338,6 +375,7 @@ def run_check(P, tier, seed, replay=None):
         terms = [P.to_coq(c, o) for c, o in zip(cases, outs)]
         eval_ok, fails, elog = coq_eval_cases(pid, P.RUN_MODULE, getattr(P, 'COQ_HEADER', ''), terms,
                                               shard_size=getattr(P, 'SHARD', 300))
+        fails = {'agree': fails['agree'], 'spec_ok': fails['spec_ok']}
         if not eval_ok:
             broken.append({'kind': 'model-eval', 'detail': elog[-1500:]})
         disagree, specfail = fails['agree'], fails['spec_ok']
@@ -368,9 +406,11 @@ def run_check(P, tier, seed, replay=None):
     replay_path = None
     if violations:
         i = violations[0]
-        c = P.shrink(cases[i], outs[i]) if hasattr(P, 'shrink') else cases[i]
+        c, co = cases[i], outs[i]
+        if hasattr(P, 'shrink_candidates') and not replay and eval_ok:
+            c, co = batch_shrink(P, c, co)
         replay_path = f"{ROOT}/replay/{pid}-{chash(c)}.json"
-        json.dump({'property': pid, 'input': c, 'impl_output': outs[i] if c is cases[i] else None,
+        json.dump({'property': pid, 'input': c, 'impl_output': co,
                    'failed': 'spec_ok evaluated to false on the implementation output',
                    'other_failing_inputs': len(violations) - 1, 'broken': broken}, open(replay_path, 'w'), indent=1)
         lines.append(f"VIOLATION property={pid} replay={replay_path}")
